@@ -32,6 +32,7 @@ use domain::rdata::*;
 use octseq::parse::Parser;
 use std::collections::BTreeMap;
 
+mod entry;
 mod limits;
 mod typed;
 
@@ -349,11 +350,51 @@ where
         vensure!(usize::from(n) == plain.len(), format!("rdlen:{tn}:compress-some-differs-from-plain"), "rdlen(true) = Some({n}) but plain composition has {} octets", plain.len());
     }
     // (1) compose_len_rdata directly on a compressing target
-    let r = match which {
-        0 => direct_on(StaticCompressor::new(Vec::new()), &seeds, v),
-        1 => direct_on(TreeCompressor::new(Vec::new()), &seeds, v),
-        _ => direct_on(HashCompressor::new(Vec::new()), &seeds, v),
-    };
+    // entry point dimension (read after everything older so that existing
+    // replay files decode as before): data handed over as T, &T or &&T, the
+    // target as X or as &mut X (blanket impls `ComposeRecordData for &T`,
+    // `Composer for &mut T`)
+    let epd = pick(u, 3);
+    let mt = flag(u);
+    ctx.class(["entry:data-by-value", "entry:data-by-ref", "entry:data-by-refref"][epd]);
+    if mt {
+        ctx.class("entry:target-by-mutref");
+    }
+    macro_rules! with_data {
+        ($f:ident, $t:expr) => {
+            match epd {
+                0 => $f($t, &seeds, v),
+                1 => $f($t, &seeds, &v),
+                _ => $f($t, &seeds, &&v),
+            }
+        };
+    }
+    macro_rules! with_target {
+        ($f:ident) => {
+            match (which, mt) {
+                (0, false) => with_data!($f, StaticCompressor::new(Vec::new())),
+                (1, false) => with_data!($f, TreeCompressor::new(Vec::new())),
+                (_, false) => with_data!($f, HashCompressor::new(Vec::new())),
+                (0, true) => {
+                    let mut c = StaticCompressor::new(Vec::new());
+                    with_data!($f, &mut c)
+                }
+                (1, true) => {
+                    let mut c = TreeCompressor::new(Vec::new());
+                    with_data!($f, &mut c)
+                }
+                (_, true) => {
+                    let mut c = HashCompressor::new(Vec::new());
+                    with_data!($f, &mut c)
+                }
+            }
+        };
+    }
+    {
+        let mut c = StaticCompressor::new(Vec::new());
+        vensure!(Composer::can_compress(&&mut c), "entry:mutref-compressor-cannot-compress", "&mut StaticCompressor reports can_compress() == false");
+    }
+    let r = with_target!(direct_on);
     let cname = ["static", "tree", "hash"][which];
     let (buf, lenpos) = match r {
         Ok(x) => x,
@@ -388,11 +429,7 @@ where
         Err(err) => vfail!(format!("compress:{tn}:reparse-fails"), "{cname}: {err}; region {}", hex(&bb[s..e])),
     }
     // (2) through MessageBuilder (record header + back-patched RDLENGTH)
-    let r = match which {
-        0 => builder_on(StaticCompressor::new(Vec::new()), &seeds, v),
-        1 => builder_on(TreeCompressor::new(Vec::new()), &seeds, v),
-        _ => builder_on(HashCompressor::new(Vec::new()), &seeds, v),
-    };
+    let r = with_target!(builder_on);
     let msg = match r {
         Ok(m) => m,
         Err(e) => vfail!(format!("builder:{tn}:push-failed"), "{cname}: {e}"),
@@ -478,6 +515,8 @@ where
             vensure!(canon.len() == plain.len() && canon.eq_ignore_ascii_case(&plain), format!("canonical:{tn}:differs-beyond-case"), "{} vs {}", hex(&canon), hex(&plain));
         }
     }
+    // the same through the by-reference entry points (blanket impls for &T)
+    entry::check_entry_points(&tn, rtype, v, &plain, &canon, pool, ctx)?;
     // compose -> parse -> equal, and identical re-composition
     let bb = Bytes::from(plain.clone());
     let v2 = match parse_region(&bb, 0, bb.len(), rt) {
@@ -884,6 +923,11 @@ fn health(c: &BTreeMap<String, u64>, _t: bool) -> Result<(), String> {
         "bitmapbuilder",
         "svcparamsbuilder",
         "optbuilder",
+        "entry-points",
+        "entry:byref-canonical-lowercased",
+        "entry:data-by-ref",
+        "entry:data-by-refref",
+        "entry:target-by-mutref",
     ] {
         if get(k) < 20 {
             return Err(format!("class {k} starved ({})", get(k)));
